@@ -154,8 +154,8 @@ Example C07_sections_example :
              mp (cs (lc f)) (0, 2) = 6%Z /\ mp (cs (lc f)) (1, 1) = 8%Z /\ fsz (cs (lc f)) = 6%Z).
 Proof.
   split; [|split; [|split; [|split; [|split; [|split]]]]].
-  - unfold well_locked, ex_put0. simpl. repeat constructor; simpl; auto.
-  - unfold well_locked, ex_put1. simpl. repeat constructor; simpl; auto.
+  - unfold well_locked, ex_put0. simpl. repeat (first [apply Forall_cons | apply Forall_nil]); simpl; auto 8.
+  - unfold well_locked, ex_put1. simpl. repeat (first [apply Forall_cons | apply Forall_nil]); simpl; auto 8.
   - reflexivity.
   - repeat constructor.
   - repeat constructor.
